@@ -18,6 +18,26 @@ def ctor(variant, lo, hi, ext=False):
     return f"{variant}({lo}, {hi}{e})"
 
 
+def _same_value_forms(run, pid, pairs):
+    """each (form, canonical) pair of constructor calls must build the same pattern: integer bounds given as instances of an int
+    subclass (what enum.IntEnum members are), keyword spellings, keyword order"""
+    n = 0
+    for form, canon in pairs:
+        n += 1
+        out = []
+        for src in (form, canon):
+            try:
+                out.append(('ok', str(_mk(src))))
+            except Exception as e:  # noqa: BLE001
+                out.append(('raise', type(e).__name__))
+        if out[0] != out[1]:
+            run.add([V(f'{pid}|argument-form|{form}', f"{form} -> {out[0]!r} but {canon} -> {out[1]!r} (the same arguments in another legal form)",
+                       "def out(f):\n    try:\n        return ('ok', str(f()))\n    except Exception as e:\n        return ('raise', type(e).__name__)\n"
+                       f"assert out(lambda: {form}) == out(lambda: {canon})")])
+    run.count('argument_form_pairs', n)
+    return n
+
+
 def canonical(s):
     return s.isdigit() and s.isascii() and (s == '0' or s[0] != '0')
 
@@ -318,6 +338,17 @@ def run_C15(run):
             if got != exc:
                 run.add([V(f'C15|{expr}|invalid', f"{expr} -> {got}, expected {exc}",
                            f"try:\n    {expr}\nexcept {exc}:\n    pass\nelse:\n    raise AssertionError")])
+    pairs = []
+    for variant in VARIANTS:
+        cls_ = 'Integer' if variant.startswith('Integer') else variant
+        sg = ', include_sign=True' if variant == 'IntegerSigned' else ''
+        for ext in (False, True):
+            canon = ctor(variant, 5, 123, ext)
+            pairs += [(ctor(variant, 'IntSub(5)', 123, ext), canon), (ctor(variant, 5, 'IntSub(123)', ext), canon), (ctor(variant, 'IntSub(5)', 'IntSub(123)', ext), canon),
+                      (f"{cls_}(start=5, end=123{sg}, is_extensible={ext})", canon), (f"{cls_}(end=123, start=5{sg}, is_extensible={ext})", canon),
+                      (f"{cls_}(5, end=IntSub(123){sg}, is_extensible={ext})", canon)]
+            pairs += [(ctor(variant, 'IntSub(0)', 'IntSub(9)', ext), ctor(variant, 0, 9, ext))]
+    _same_value_forms(run, 'C15', pairs)
     run.merge_counts(tot)
     run.count('invalid_parameter_calls', n_inv)
     run.sample({'pattern': ctor('Integer', 5, 123), 'numerals': boundary_numerals(5, 123)[:12], 'clean_left': LEFTS_CLEAN, 'clean_right': RIGHTS_CLEAN})
@@ -527,6 +558,20 @@ def run_C16(run):
             if got != exc:
                 run.add([V(f'C16|{expr}|invalid', f"{expr} -> {got}, expected {exc}",
                            f"try:\n    {expr}\nexcept {exc}:\n    pass\nelse:\n    raise AssertionError")])
+    pairs = []
+    for variant in DVARIANTS:
+        cls_ = 'Decimal' if variant.startswith('Decimal') else variant
+        sg = ', include_sign=True' if variant == 'DecimalSigned' else ''
+        for ext in (False, True):
+            canon = dctor(variant, 5, 123, 1, 2, ext)
+            for a in itertools.product((0, 1), repeat=4):
+                if any(a):
+                    args = [('IntSub(%d)' % v) if f else v for f, v in zip(a, (5, 123, 1, 2))]
+                    pairs.append((dctor(variant, *args, ext), canon))
+            pairs += [(f"{cls_}(start=5, end=123, min_decimal=1, max_decimal=2{sg}, is_extensible={ext})", canon),
+                      (f"{cls_}(max_decimal=IntSub(2), min_decimal=1, end=123, start=5{sg}, is_extensible={ext})", canon),
+                      (dctor(variant, 0, 9, 'IntSub(2)', None, ext), dctor(variant, 0, 9, 2, None, ext))]
+    _same_value_forms(run, 'C16', pairs)
     run.merge_counts(tot)
     run.count('invalid_parameter_calls', n_inv)
     run.sample({'pattern': dctor('Decimal', 5, 123, 1, 2), 'candidates': ['5.5', '05.5', '4.5', '123.55', '123.555', '.5', '5.']})
